@@ -17,7 +17,8 @@ def run(tier, runner):
     r_w = encoding.enc_w(small + real)
     r_r = encoding.enc_r(small + real)
     r_es = encoding.enc_sib(small + real)
-    r_si = encoding.shrink_inline(small + real)
+    tm = matrix.programs(runner, [p for p in matrix.vec_points(tier, elems=['NTRtm']) if p.flavour == 'small'])
+    r_si = encoding.shrink_inline(small + tm + real)
     r_es.require(3, 'the three encoders')
     r_si.require(1, 'shrink_impl')
     ssp = matrix.programs(runner, matrix.smallset_points(tier)) + real
